@@ -19,7 +19,8 @@
 
 int write_bin(Memory *memory, FILE *out)
 {
-  uint32_t n;
+  // 64 bit so the loop ends when high_address is 0xffffffff.
+  uint64_t n;
 
   for (n = memory->low_address; n <= memory->high_address; n++)
   {
